@@ -82,7 +82,7 @@ def rw_jobs(prop, stress_runs, patterns, stress_args=(), pattern_args=(), varian
 RW_FIELDS = ('runs', 'patterns', 'sections', 'reads', 'writes', 'parks', 'maxReaders', 'batches2', 'windowHits',
              'idleAsleepHits', 'runsWithHit', 'pairsLive', 'pairsWW', 'pairsWR', 'pairsRW', 'maxQueue', 'idleProbes',
              'readersNoWriter', 'readerParksJudged', 'rendezvous', 'rendezvousReaders', 'predictedParks',
-             'predictedFast', 'delaysAfterWake', 'delaysCondEntry', 'delaysOther', 'condWaits')
+             'predictedFast', 'lateArrivalPatterns', 'lateArrivals', 'delaysAfterWake', 'delaysCondEntry', 'delaysOther', 'condWaits')
 
 
 def rw_evidence(rule):
@@ -120,9 +120,10 @@ SPECS['C02'] = dict(
 SPECS['C03'] = dict(
     title='Resource: FIFO fairness',
     jobs=rw_jobs('C03', (16, 600), (2400, 100000), variants=('mon', 'mon-ndebug')),
-    require={'any': {'pairsLive': 5000, 'pairsWW': 100, 'pairsWR': 100, 'pairsRW': 100, 'patterns': 252}},
+    require={'any': {'pairsLive': 5000, 'pairsWW': 100, 'pairsWR': 100, 'pairsRW': 100, 'patterns': 252, 'lateArrivalPatterns': 300}},
     evidence=rw_evidence('scripted arrival patterns (initial holder R/W, every arrival word over {R,W} of length 1..6 enumerated = 252, then '
-                         'seeded words of length 7..10; each arrival is started only after the previous one is observed parked or granted) plus '
+                         'seeded words of length 7..10; each arrival is started only after the previous one is observed parked or granted; in ~30% of the patterns one request of the '
+                         'first wave keeps the lock until a second wave of 1-4 requests has arrived, so requests also arrive while queued ones are being served) plus '
                          'free-running stress; rule: A observed parked (cond_wait entry stamp, taken under the Resource mutex) before B was '
                          'issued and not both readers => unlock_call(A) < lock_return(B). pairsLive = judged pairs where A was still waiting '
                          'or inside when B arrived. non-trivial = case with >=2 simultaneously queued requests; distinct = (pattern, grant order) fingerprints'),
